@@ -43,14 +43,23 @@ def run(res):
     quick = res.tier == 'quick'
     nhist = 12 if quick else 30
     length = 250 if quick else 800
+    import validate_fair as VF
     lines, impl_first, owners = [], [], []
+    flines, fimpl, fowners = [], [], []
     violations = []
+    edits = {'label_add': 0, 'label_discard': 0, 'replace_labelling': 0, 'F_edited_in_place': 0}
     calls = 0
     kinds = {}
     for h in range(nhist):
         small = [K for n in (2, 3) for K in all_structures(n)]
         pool_ks = [rng.choice(small) for _ in range(3)] + [random_structure(rng, 5) for _ in range(3)]
+        # two of the pooled structures use atoms spelled like the labels the fairness code invents
+        for i in (1, 4):
+            ren = {'q': 'fair', 'r': 'fair0'} if i == 1 else {'p': 'fair'}
+            pool_ks[i] = KS(pool_ks[i].succ, [[ren.get(l, l) for l in ls] for ls in pool_ks[i].labs])
         pool_k = [k.to_impl() for k in pool_ks]
+        version = [0] * len(pool_ks)
+        F_pool = [[set(), set()][:rng.choice([0, 1, 2])] for _ in range(3)]     # live lists, edited in place between calls
         forms = []
         for _ in range(4):
             forms.append(('CTL', F.rand_ctl(rng, 3)))
@@ -64,6 +73,24 @@ def run(res):
         seen = {}
         for step in range(length):
             ki = rng.randrange(len(pool_k))
+            # the caller changes its own objects between calls (public API): the next answers must follow
+            if rng.random() < 0.04:
+                n = pool_ks[ki].n
+                st_, ap = rng.randrange(n), rng.choice(['p', 'q', 'r', 'fair'])
+                how = rng.choice(['label_add', 'label_discard', 'replace_labelling'])
+                labs = [list(ls) for ls in pool_ks[ki].labs]
+                if how == 'label_add':
+                    pool_k[ki].labels(st_).add(ap)
+                    labs[st_] = sorted(set(labs[st_]) | {ap})
+                elif how == 'label_discard':
+                    pool_k[ki].labels(st_).discard(ap)
+                    labs[st_] = [l for l in labs[st_] if l != ap]
+                else:
+                    labs = [[l for l in ('p', 'q', 'r') if rng.random() < 0.4] for _ in range(n)]
+                    pool_k[ki].replace_labelling_function({s_: set(ls) for s_, ls in enumerate(labs)})
+                pool_ks[ki] = KS(pool_ks[ki].succ, labs)
+                version[ki] += 1
+                edits[how] += 1
             fi = rng.randrange(len(objs))
             logic, t, o, txt = objs[fi]
             entry = rng.choice(['obj', 'obj', 'text'])
@@ -71,7 +98,14 @@ def run(res):
             Fv = None
             if withF:
                 n = pool_ks[ki].n
-                Fv = [set(s for s in range(n) if rng.random() < 0.5) for _ in range(rng.choice([0, 1, 2]))]
+                if rng.random() < 0.5:
+                    Fv = [set(s for s in range(n) if rng.random() < 0.5) for _ in range(rng.choice([0, 1, 2]))]
+                else:
+                    Fv = rng.choice(F_pool)              # the same list object as in earlier calls, edited in place
+                    for P in Fv:
+                        P.clear()
+                        P.update(s for s in range(n) if rng.random() < 0.5)
+                    edits['F_edited_in_place'] += 1
                 Fkey = tuple(tuple(sorted(P)) for P in Fv)
             else:
                 Fkey = None
@@ -97,7 +131,22 @@ def run(res):
                 pool_k = [k.to_impl() for k in pool_ks]   # restore and go on
             if after_f != before_f:
                 violations.append(('a modelcheck call modified a formula object', ctx))
-            key = (ki, fi, Fkey)   # text and object entry must give the same answer as well
+            # purity as "a function of the VALUES of its arguments": the same call on freshly built equal arguments
+            if step % 3 == 0 or withF:
+                try:
+                    with contextlib.redirect_stdout(io.StringIO()):
+                        Kf = pool_ks[ki].to_impl()
+                        argf = to_obj(t, lang(logic)) if entry == 'obj' else str(txt)
+                        rf = (lang(logic).modelcheck(Kf, argf, F=[set(P) for P in Fv]) if withF
+                              else lang(logic).modelcheck(Kf, argf))
+                    af = 'OK ' + ' '.join(map(str, sorted(rf)))
+                except Exception as e:
+                    af = 'ERR ' + type(e).__name__
+                if af != a:
+                    violations.append(('the answer depends on the history of the objects: %s on the pooled (long-lived, '
+                                       'possibly relabelled) structure / formula / F list, %s on freshly built equal arguments'
+                                       % (a, af), ctx))
+            key = (ki, version[ki], fi, Fkey)   # text and object entry must give the same answer as well
             if key in seen:
                 if seen[key] != a:
                     violations.append(('repeating the call returned %s, the first call returned %s' % (a, seen[key]), ctx))
@@ -107,6 +156,11 @@ def run(res):
                     lines.append('%s|%s|%s' % (logic, pool_ks[ki].enc(), sexpr(t)))
                     impl_first.append(a)
                     owners.append(ctx)
+                else:
+                    # with F: the as-implemented fairness model (validated in C15), fed with the clone's iteration order
+                    flines.append('%s|%s|%s|%s' % (VF.CMD[logic], VF.enc_struct(K.clone()), VF.enc_fair([sorted(P) for P in Fv]), sexpr(t)))
+                    fimpl.append(a)
+                    fowners.append(ctx)
     model = [mc_common.norm(x) for x in lean_batch(lines)]
     bad = 0
     for a, m, ctx in zip(impl_first, model, owners):
@@ -114,6 +168,13 @@ def run(res):
             bad += 1
             if bad <= 2:
                 res.violation('answer %s differs from the model (proved exact) %s' % (a, m), dict(ctx, impl=a, model=m))
+    fbad = 0
+    for a, m, ctx in zip(fimpl, [VF.norm(x) for x in lean_batch(flines)], fowners):
+        if VF.norm(a) != m:
+            fbad += 1
+            if fbad <= 2:
+                res.violation('with F, on long-lived objects the answer is %s; the as-implemented fairness model (tied to '
+                              'fresh-object runs by C15) gives %s: the answer depends on history' % (a, m), dict(ctx, impl=a, model=m))
     for what, ctx in violations[:3]:
         res.violation(what, ctx)
     problems = proof_coverage(res, THEOREMS, MODULES)
@@ -126,7 +187,8 @@ def run(res):
                 'structure and formula around every call; distinct_nontrivial = distinct (structure, formula) pairs '
                 'without F, whose first answer is also compared with the Lean model' % (nhist, length),
         'call_kinds': {'%s/%s/%s' % k: v for k, v in sorted(kinds.items())},
-        'purity_violations': len(violations), 'model_disagreements': bad,
+        'purity_violations': len(violations), 'model_disagreements': bad, 'fair_model_disagreements': fbad,
+        'caller_side_edits_between_calls': edits, 'calls_with_F_compared_with_model': len(flines),
         'samples': owners[:2],
         'traces_validated_against_impl': nhist,
     })
